@@ -154,6 +154,14 @@ class InjectedLookupError(KeyError):
     pass
 
 
+class InjectedBase(BaseException):
+    """A failure that is no Exception (like KeyboardInterrupt or a loop's own cancellation class) raised BY a source or
+    callable: it propagates and is cleaned up after like any other."""
+
+    def __bool__(self):
+        return False
+
+
 class Matcher:
     """A sentinel that decides by itself what equals it: anything whose key is the sentinel key."""
 
@@ -447,7 +455,7 @@ def execute(case, L, *, sync=False, flav=None, susp=0, fault_kind="exc", cancel_
     if rec.fault is not None:
         rec.fault_exc = {"exc": InjectedError, "typeerr": InjectedTypeError, "cancel": Cancelled,
                          "stopasync": InjectedStopAsync, "stopiter": InjectedStop, "valueerr": InjectedValueError,
-                         "lookuperr": InjectedLookupError}[fault_kind]("injected")
+                         "lookuperr": InjectedLookupError, "baseexc": InjectedBase}[fault_kind]("injected")
     src_flav = flav["src"]
     S, H = [], []
     list_snap, list_edited = {}, set()     # the caller's lists as handed over / those the harness edited itself
